@@ -28,19 +28,19 @@ func verifArg(name string, kinds int) Object {
 		// mixed, mutually incomparable elements
 		return Array{Int(verifrt.Int64(name + ".a0")), String("x"), Int(verifrt.Int64(name + ".a2")), Map{}}
 	case 4:
-		return Uint(verifrt.Uint64(name + ".u"))
-	case 5:
-		return Float(verifrt.Float64Bits(name + ".f"))
-	case 6:
-		return Char(verifrt.Int32(name + ".c"))
-	case 7:
-		return Bool(verifrt.Bool(name + ".b"))
-	case 8:
-		return Bytes(verifrt.Bytes(name+".y", verifrt.Choice(name+".yl", 3)))
-	case 9:
-		return Map{"k": Int(verifrt.Int64(name + ".m0"))}
-	case 10:
 		return &Function{Name: "cb", Value: func(args ...Object) (Object, error) { return Int(len(args)), nil }}
+	case 5:
+		return Uint(verifrt.Uint64(name + ".u"))
+	case 6:
+		return Float(verifrt.Float64Bits(name + ".f"))
+	case 7:
+		return Char(verifrt.Int32(name + ".c"))
+	case 8:
+		return Bool(verifrt.Bool(name + ".b"))
+	case 9:
+		return Bytes(verifrt.Bytes(name+".y", verifrt.Choice(name+".yl", 3)))
+	case 10:
+		return Map{"k": Int(verifrt.Int64(name + ".m0"))}
 	case 11:
 		return &Error{Name: "E", Message: "m"}
 	}
